@@ -436,6 +436,9 @@ func (c *BoolCtx) CmpExpr(cm *CmpInfo) *BExpr {
 			if bc == 1 {
 				return c.ZeroExpr(a)
 			}
+			// a < c is not(c-1 < a): comparisons with a constant are named with the
+			// constant on the left, so `q >= 32` and `q > 31` are one proposition
+			return BNot(BVar("lt(" + linName(LinConst(b.W, bc-1)) + "," + linName(a.Lin) + ")"))
 		}
 		if ac, ok := a.IsConst(); ok && !cm.Sgn { // c < b
 			if (ac+1)&ac == 0 { // c = 2^k-1: b >= 2^k
@@ -567,7 +570,36 @@ func (o Ops) Rebuild(l *Lin, assign map[string]bool) *Int {
 
 // RebuildSubst is Rebuild with some atoms (by key) replaced by constants.
 func (o Ops) RebuildSubst(l *Lin, assign map[string]bool, subst map[string]uint64) *Int {
+	return o.RebuildBounded(l, assign, subst, nil)
+}
+
+// RebuildBounded is RebuildSubst with upper bounds known for some sub-terms (by the
+// name linName gives them): a term re-evaluated to such a name gets the bound, so that
+// masks and extensions the bound makes redundant disappear.
+func (o Ops) RebuildBounded(l *Lin, assign map[string]bool, subst map[string]uint64, hi map[string]uint64) *Int {
 	memo := map[*Atom]*Int{}
+	if len(hi) > 0 {
+		// path-specific bounds are written into the atoms themselves, so they need an
+		// interner of their own (results are compared by key only)
+		o = Ops{In: NewInterner()}
+	}
+	bound := func(v *Int) *Int {
+		if len(hi) == 0 || v.Lin.IsConst() {
+			return v
+		}
+		if b, ok := hi[linName(v.Lin)]; ok && b < v.Hi {
+			c := v.clone()
+			c.Hi = b
+			if c.Lo > b {
+				c.Lo = b
+			}
+			if len(c.Lin.T) == 1 && c.Lin.C == 0 && c.Lin.T[0].K == 1 && c.Lin.T[0].A.Hi > b {
+				c.Lin.T[0].A.Hi = b
+			}
+			return c.reduce()
+		}
+		return v
+	}
 	var atomVal func(a *Atom) *Int
 	var linVal func(l *Lin) *Int
 	// x&m1 + x&m2 with disjoint constant masks is x&(m1|m2): digits picked apart and
@@ -653,7 +685,7 @@ func (o Ops) RebuildSubst(l *Lin, assign map[string]bool, subst map[string]uint6
 			}
 			r = o.Add(r, v)
 		}
-		return mergeMasks(r)
+		return bound(mergeMasks(r))
 	}
 	atomVal = func(a *Atom) *Int {
 		if v, ok := memo[a]; ok {
@@ -722,6 +754,7 @@ func (o Ops) RebuildSubst(l *Lin, assign map[string]bool, subst map[string]uint6
 		if v.W != a.W {
 			v = o.Convert(v, a.W, false, false)
 		}
+		v = bound(v)
 		memo[a] = v
 		return v
 	}
@@ -804,3 +837,7 @@ func highPart(l *Lin) (n int, t *Lin, ok bool) {
 	}
 	return 0, nil, false
 }
+
+
+// LinName is the name a form has inside a proposition.
+func LinName(l *Lin) string { return linName(l) }
